@@ -1,77 +1,13 @@
-(* C19 part B - proofs about the value-flow machines of powell / bfgs / lbfgs (B_Flow.v):
+(* C19 part B - proofs about the value-flow machine of bfgs / lbfgs (B_Flow.v):
    the reported objective is the value of exactly the objective call whose point is returned. *)
 From Coq Require Import List ZArith Bool Arith Lia.
 From SV Require Import C19.B_Common C19.B_Flow C19.B_ProofsCommon.
 Import ListNotations.
 Open Scope Z_scope.
 
-(* us = raw user values of the objective calls, in call order *)
-Definition flow_ok (us : list Z) (r : result) (st : est) : Prop :=
-  (r_sol r < evals st)%nat /\ nth_error us (r_sol r) = Some (r_obj r) /\
-  (evals st + length (rest st) = length us)%nat.
 
 Section Flow.
 Variable us : list Z.
-
-Lemma last_in_cons (r : list ent) (e : ent) : In (last r e) (e :: r).
-Proof.
-  induction r as [|a t IH]; cbn [last]; [left; reflexivity|].
-  destruct t as [|b t']; [right; left; reflexivity|].
-  destruct IH as [IH|IH]; [left; exact IH | right; right; exact IH].
-Qed.
-
-Lemma calls_last_spec k st e st' :
-  wf us st -> calls_last k st = Some (e, st') ->
-  wf us st' /\ good us (evals st') e /\ (evals st <= evals st')%nat.
-Proof.
-  intros W H. unfold calls_last in H.
-  destruct (eval_n k st) as [[es st1]|] eqn:E; [|discriminate].
-  destruct es as [|x r]; [discriminate|]. inversion H; subst; clear H.
-  destruct (eval_n_spec us _ _ _ _ W E) as (W1 & A2 & A3 & _).
-  split; [exact W1|]. split; [|lia].
-  rewrite Forall_forall in A3. apply A3. apply last_in_cons.
-Qed.
-
-Lemma good_flow_ok cur it ev s st :
-  wf us st -> good us (evals st) cur -> flow_ok us (pw_result cur it ev s) st.
-Proof.
-  intros W [G1 G2]. unfold flow_ok, pw_result; cbn [r_sol r_obj].
-  split; [exact G1|]. split; [exact G2 | apply wf_length; exact W].
-Qed.
-
-Lemma pw_dirs_inv lens n : forall j cur ev st c j' ev' st',
-  wf us st -> good us (evals st) cur ->
-  pw_dirs lens n j cur ev st = Some (c, j', ev', st') ->
-  wf us st' /\ good us (evals st') c.
-Proof.
-  induction n as [|n IH]; intros j cur ev st c j' ev' st' W G H; cbn [pw_dirs] in H.
-  - inversion H; subst. split; assumption.
-  - destruct (calls_last (lens j) st) as [[c1 st1]|] eqn:E; [|discriminate].
-    destruct (calls_last_spec _ _ _ _ W E) as (W1 & G1 & _).
-    eapply IH; eauto.
-Qed.
-
-Lemma pw_loop_ok max_iter n lens conv moved cb interval k : forall it j cur ev st r st',
-  wf us st -> good us (evals st) cur ->
-  pw_loop max_iter n lens conv moved cb interval k it j cur ev st = Some (r, st') ->
-  flow_ok us r st'.
-Proof.
-  induction k as [|k IH]; intros it j cur ev st r st' W G H; cbn [pw_loop] in H.
-  - inversion H; subst. apply good_flow_ok; assumption.
-  - destruct (pw_dirs lens n j cur ev st) as [[[[c j1] ev1] st1]|] eqn:E; [|discriminate].
-    destruct (pw_dirs_inv _ _ _ _ _ _ _ _ _ _ W G E) as (W1 & G1).
-    destruct (conv it).
-    + inversion H; subst. apply good_flow_ok; assumption.
-    + destruct (moved it).
-      * destruct (calls_last (lens j1) st1) as [[c2 st2]|] eqn:E2; [|discriminate].
-        destruct (calls_last_spec _ _ _ _ W1 E2) as (W2 & G2 & _).
-        destruct (report_progress cb interval (it + 1)).
-        -- inversion H; subst. apply good_flow_ok; assumption.
-        -- eapply IH; eauto.
-      * destruct (report_progress cb interval (it + 1)).
-        -- inversion H; subst. apply good_flow_ok; assumption.
-        -- eapply IH; eauto.
-Qed.
 
 Lemma qn_report_ok st it ev s r st' :
   wf us st -> qn_report st it ev s = Some (r, st') ->
@@ -106,16 +42,6 @@ Proof.
 Qed.
 
 End Flow.
-
-Theorem powell_run_ok n max_iter lens conv moved cb interval us r st :
-  powell_run_st n max_iter lens conv moved cb interval us = Some (r, st) -> flow_ok us r st.
-Proof.
-  unfold powell_run_st. destruct (eval (est0 us)) as [[c0 st0]|] eqn:E; [|discriminate].
-  intros H.
-  destruct (eval_spec us _ _ _ (wf_est0 us) E) as (W & _).
-  eapply pw_loop_ok; [exact W | | exact H].
-  exact (eval_good us _ _ _ (wf_est0 us) E).
-Qed.
 
 Theorem bfgs_run_ok max_iter conv bt cb interval us r st :
   bfgs_run_st max_iter conv bt cb interval us = Some (r, st) ->
